@@ -49,6 +49,13 @@ def handle : List Sexp → Option String
       match X690.berVariant t v sc with
       | some b => some s!"ok {hexOut b}"
       | none => some "err refused"
+  | [.atom "WF", t] => do
+      let t ← tyOf t
+      some (if t.WF then "ok 1" else "ok 0")
+  | [.atom "HASTYPE", t, v] => do
+      let t ← tyOf t
+      let v ← valOf v
+      some (if HasType t v then "ok 1" else "ok 0")
   | [.atom "TAGS", t] => do
       let t ← tyOf t
       some ("ok" ++ String.join (t.tags.map fun x => " " ++ tagStr x))
@@ -74,7 +81,7 @@ def handle : List Sexp → Option String
 
 /-- every model module contributes a handler; the first one that recognises the request answers -/
 def handlers : List (List Sexp → Option String) :=
-  [handle, Asn1.Time.handle, Asn1.Stream.handle, Asn1.Constraint.handle, Asn1.Container.handle]
+  [handle, Asn1.Time.handle, Asn1.Stream.handle, Asn1.Constraint.handle, Asn1.Container.handle, Asn1.Native.handle]
 
 def dispatch (sx : List Sexp) : Option String :=
   handlers.findSome? (fun h => h sx)
